@@ -160,6 +160,9 @@ let show_content_mem (c : (((n * n) * n) * blob) list) =
   String.concat ";" (List.sort compare (List.map (fun (k, bl) -> show_key_t (key_t k) ^ "=" ^ string_of_int (ii bl.b_hash)) c))
 let show_content_oci (c : (n * blob) list) =
   String.concat ";" (List.sort compare (List.map (fun (g, bl) -> Printf.sprintf "%d=%d" (ii g) (ii bl.b_hash)) c))
+let show_graph (g : graph) =
+  String.concat ";" (List.sort compare (List.map (fun (k, l) ->
+    show_key_t (key_t k) ^ ">" ^ String.concat "+" (List.sort compare (List.map (fun x -> show_key_t (key_t x)) l))) g.g_succs))
 let show_tags (t : (ref * desc) list) =
   String.concat ";" (List.sort compare (List.map (fun (r, d) -> show_ref_t (ref_t r) ^ "=" ^ show_out (ODesc d)) t))
 
@@ -184,15 +187,16 @@ let () =
              serialisable (fun s o -> let (s', x) = file_stepper store s o in (s', show_fout x)) file_init
                (fun s -> String.concat "," (List.map (fun n -> string_of_int (ii n)) (List.sort compare s.f_names)) ^ "#" ^
                          String.concat "," (List.sort compare (List.map (fun (g, p) -> Printf.sprintf "%d>%d" (ii g) (ii p)) s.f_d2p)) ^ "#" ^
-                         show_content_mem s.f_cas ^ "#" ^ show_tags s.f_res.r_index) evs probe
+                         show_content_mem s.f_cas ^ "#" ^ show_tags s.f_res.r_index ^ "#" ^ show_graph s.f_graph ^ "#" ^
+                         String.concat "," (List.sort compare (List.map (fun (p, _) -> string_of_int (ii p)) s.f_disk))) evs probe
            else
            match store with
            | "mem" ->
              serialisable (fun s o -> let (s', x) = mem_step s o in (s', show_out x)) mem_init
-               (fun s -> let a = mem_abs s in show_content_mem a.sp_content ^ "#" ^ show_tags a.sp_tags) evs probe
+               (fun s -> let a = mem_abs s in show_content_mem a.sp_content ^ "#" ^ show_tags a.sp_tags ^ "#" ^ show_graph s.m_graph) evs probe
            | "oci" ->
              serialisable (fun s o -> let (s', x) = oci_step s o in (s', show_out x)) oci_init
-               (fun s -> let a = oci_abs s in show_content_oci a.sp_content ^ "#" ^ show_tags a.sp_tags) evs probe
+               (fun s -> let a = oci_abs s in show_content_oci a.sp_content ^ "#" ^ show_tags a.sp_tags ^ "#" ^ show_graph s.o_graph) evs probe
            | _ -> failwith "store" in
          Printf.printf "%s LIN %s\n" id (if ok then "ok" else "fail")
        with Failure m -> Printf.printf "%s BADCASE %s\n" id m)
